@@ -67,7 +67,7 @@ class C20(Prop):
         def oracle(ln, rep):
             b = [int(x) for x in ln.split()[2:]]
             typ = (b[12] << 8) | b[13]
-            if typ & 1 and ("reserved packet type" in rep or "PKT" in rep):
+            if typ & 1 and ("reserved packet type" in rep or ", PKT:" in rep):      # (the field `PKT:`, not the letters: a callsign may read FGPKT)
                 return "packet-mode diagnostics for a stream TYPE"
             if typ & 1 and (typ >> 1) & 3 == 2 and "STR:V/V" not in rep:
                 return "voice stream not reported as STR:V/V"
